@@ -409,18 +409,65 @@ def done_status_type_agrees(ctx, rid):
 
 
 # ------------------------------------------------------------------------------------------------
+# rules that are necessary conditions of several properties are evaluated once, in the table they were written
+# for, and reported under every property they matter to
+
+_BORROW_CACHE = {}
+
+
+def borrow(prop_from, rule_from, key_rx, why):
+    def f(ctx, rid):
+        import importlib
+        import engine
+        ck = (id(ctx.prog), prop_from)
+        sub = _BORROW_CACHE.get(ck)
+        if sub is None:
+            sub = engine.Ctx(ctx.prog, ctx.cg, prop_from, ctx.tier)
+            importlib.import_module("rules." + prop_from).run(sub)
+            _BORROW_CACHE.clear()
+            _BORROW_CACHE[ck] = sub
+        ctx.rule(rid, "(= %s of %s) %s; matters here because %s" % (rule_from, prop_from, sub.rules.get(rule_from, ""), why))
+        n = 0
+        for o in sub.obs:
+            if o["rule"] != rule_from:
+                continue
+            k = o["key"].split("|", 1)[1]
+            if key_rx and not re.search(key_rx, k):
+                continue
+            n += 1
+            ctx.ob(rid, k, o["ok"], where=o["where"], detail=o["detail"], witness=o["witness"], nontrivial=o["nontrivial"])
+        ctx.floor(rid, "instances of %s taken over from %s" % (rule_from, prop_from), n, 1)
+    return f
+
+
+def memo_after_failed_test(ctx, rid):
+    from rules import dirt
+    ctx.rule(rid, "(= R1.7) the per-run 'already checked' memo is consulted only after the failed-last-time test: a target that failed in this run is never reported clean to a later dependent")
+    dirt.memo_placement(ctx, rid)
+
+
+# ------------------------------------------------------------------------------------------------
 
 TABLE = {
-    "C02": [("R2.7", every_candidate_leaves_an_edge)],
+    "C02": [("R2.7", every_candidate_leaves_an_edge),
+            ("R2.8", borrow("C03", "R3.2", None, "a build wrongly taken for a stamped one never advances changed_runid: the target and its dependents then re-run on every later redo-ifchange"))],
     "C13": [("R13.6", every_candidate_leaves_an_edge), ("R13.7", check_never_refreshes_stamps)],
     "C03": [("R3.9", signal_death_is_failure)],
-    "C05": [("R5.8", signal_death_is_failure)],
+    "C05": [("R5.8", signal_death_is_failure),
+            ("R5.9", borrow("C01", "R1.3", None, "the edge to a requested target must exist even when that target then fails, or the caller is not dirty next run and the failed target is never retried")),
+            ("R5.10", memo_after_failed_test)],
     "C04": [("R4.6", output_probed_with_lstat), ("R4.7", direct_modification_is_inequality)],
-    "C11": [("R11.8", direct_modification_is_inequality)],
+    "C11": [("R11.8", direct_modification_is_inequality),
+            ("R11.9", borrow("C15", "R15.2", None, "the record consulted for `generated / override` must be the one of the file the kernel will resolve: a spelling cleaned before symlinks are resolved selects another record and a user's file is replaced"))],
     "C06": [("R6.9", verdict_only_under_lock)],
-    "C07": [("R7.5", verdict_only_under_lock)],
+    "C07": [("R7.5", verdict_only_under_lock),
+            ("R7.6", borrow("C02", "R2.3", r"marked-edges-still-listed", "while a target is being rebuilt its marked edges are the only record of why it is dirty: a dependent evaluated by a parallel job must still see them")),
+            ("R7.7", borrow("C13", "R13.3", r"^[^|]*\|\$3=", "two targets of one default.*.do that differ only in the matched extension must not share a temp output name when built in parallel"))],
     "C08": [("R8.10", cheat_pipe_only_for_j0)],
-    "C01": [("R1.9", check_never_refreshes_stamps)],
+    "C01": [("R1.9", check_never_refreshes_stamps),
+            ("R1.10", borrow("C02", "R2.3", r"marked-edges-still-listed", "after an interrupted rebuild the marked edges are the only reason the target is dirty"))],
+    "C14": [("R14.6", borrow("C02", "R2.3", r"marked-edges-still-listed", "an ifcreate / always edge of an interrupted rebuild must still make the target dirty"))],
+    "C09": [("R9.8", borrow("C12", "R12.2", None, "a lock id that is not registered turns a cycle into an endless fcntl wait"))],
     "C17": [("R17.6", ood_lists_every_nonclean), ("R17.7", check_never_refreshes_stamps)],
     "C18": [("R18.7", done_status_type_agrees)],
 }
